@@ -663,7 +663,70 @@ def r08_10(ctx):
     ctx.floor('R08.10', 'field stores emitted by the generator', n, 2)
 
 
+
+def r08_11(ctx):
+    """Block structure of the emitted update(): inside the emitting loops of the generator every `self.indent()` that opens a guard
+    (`if <field>:`) is closed by a `self.dedent()` in the same loop iteration.  A guard left open nests the guards of all later fields
+    inside it: update(g=...) without f is silently ignored (wave 8)."""
+    n = 0
+    for f in [f for f in ctx.prog.functions.values() if f.qual.startswith('pyiga.codegen.cython.AsmGenerator.generate_update')]:
+        loops = [l for l in ast.walk(f.node) if isinstance(l, (ast.For, ast.While))]
+        for l in loops:
+            def level(call):
+                # innermost loop around the call
+                inner = [x for x in loops if x is not l and any(y is call for y in ast.walk(x)) and any(y is x for y in ast.walk(l))]
+                return not inner
+            ind = [c for c in ast.walk(l) if isinstance(c, ast.Call) and src(c.func) == 'self.indent' and level(c)]
+            ded = [c for c in ast.walk(l) if isinstance(c, ast.Call) and src(c.func) == 'self.dedent' and level(c)]
+            if not ind and not ded:
+                continue
+            n += 1
+            if len(ind) > len(ded):
+                ctx.violated('R08.11', f.qual, 'for %s in %s: %d indent(), %d dedent()' % (src(l.target)[:20], src(l.iter)[:40], len(ind), len(ded)), ind[0],
+                             'a block opened per iteration is never closed: the guard `if <field>:` of the first updatable field encloses the guards of '
+                             'all later fields, so update() of a later field alone changes nothing')
+            else:
+                ctx.decide('R08.11', f.qual, 'for %s in %s: blocks opened = blocks closed (%d)' % (src(l.target)[:20], src(l.iter)[:40], len(ind)),
+                           True if len(ind) == len(ded) else None, l)
+    ctx.floor('R08.11', 'emitting loops that open blocks in generate_update', n, 1)
+
+
+def r08_12(ctx):
+    """chunk_tasks: the chunk boundaries are computed in integer arithmetic (floor division, range steps).  Boundaries obtained by
+    truncating a floating-point product (int(k * (len / c))) lose the last task for some (length, thread count) pairs -- int(7 * (61 / 7))
+    is 60 -- so the result depends on the number of threads."""
+    f = ctx.prog.maybe_func('pyiga.assemble_tools_cy.chunk_tasks')
+    if f is None:
+        ctx.undecided('R08.12', 'pyiga.assemble_tools_cy.chunk_tasks', 'definition', None, 'not found')
+        return
+    slices = [s for s in ast.walk(f.node) if isinstance(s, ast.Subscript) and isinstance(s.slice, ast.Slice)]
+    if not slices:
+        ctx.undecided('R08.12', f.qual, 'slices of the task list', f.node, 'not recognised')
+        return
+    for s in slices:
+        bad = None
+        for b in (s.slice.lower, s.slice.upper):
+            if b is None:
+                continue
+            e = resolve.expand(b, s)
+            for x in ast.walk(e):
+                if isinstance(x, ast.BinOp) and isinstance(x.op, ast.Div):
+                    bad = x
+                if isinstance(x, ast.Call) and call_name(x) in ('int', 'round', 'np.floor', 'np.ceil', 'math.floor', 'math.ceil'):
+                    inner = resolve.expand(x.args[0], s) if x.args else None
+                    if inner is not None and any(isinstance(y, ast.BinOp) and isinstance(y.op, ast.Div) for y in ast.walk(inner)):
+                        bad = x
+        if bad is not None:
+            ctx.violated('R08.12', f.qual, src(s)[:70], s,
+                         'a chunk boundary is the truncation of a floating-point quotient (`%s`): for some lengths the last boundary rounds to '
+                         'len-1 and the final entry is assigned to no chunk (stays 0) -- the assembled matrix depends on the thread count' % src(bad)[:50])
+        else:
+            ctx.met('R08.12', f.qual, src(s)[:70], s, 'integer chunk boundaries')
+
+
 def run(ctx):
+    r08_11(ctx)
+    r08_12(ctx)
     r08_10(ctx)
     r08_9(ctx)
     r08_8(ctx)
